@@ -96,8 +96,8 @@ Definition recoverable (a : alg) : bool :=
 (* proposals are a function of history and seed, and the wrapper (if any) sits directly on the stream *)
 Definition continuable (a : alg) : bool :=
   match a with
-  | ASweep | ARand _ => true
-  | ADedup ASweep _ _ _ _ | ADedup (ARand _) _ _ _ _ => true
+  | ASweep | ARand true _ => true
+  | ADedup ASweep _ _ _ _ | ADedup (ARand true _) _ _ _ _ => true
   | _ => false
   end.
 
@@ -121,11 +121,11 @@ Theorem recover_observable : forall m a rw evs, recoverable a = true ->
   pview (obs g (recovered g (r_hist g r))) = pview (obs g (r_st g r)).
 Proof.
   intros m a rw evs Hrec g r Hok. unfold recovered.
-  destruct a as [| t | a' hm au md ma | i sz u t].
+  destruct a as [| sd t | a' hm au md ma | i sz u t].
   - destruct (run_reach (denote m ASweep) rw anyfed (fun _ => I) evs Hok) as (HR & _).
     exact (proj1 (base_obs_rec m ASweep eq_refl) _ _ HR _ (HRw_refl _)).
-  - destruct (run_reach (denote m (ARand t)) rw anyfed (fun _ => I) evs Hok) as (HR & _).
-    exact (proj1 (base_obs_rec m (ARand t) eq_refl) _ _ HR _ (HRw_refl _)).
+  - destruct (run_reach (denote m (ARand sd t)) rw anyfed (fun _ => I) evs Hok) as (HR & _).
+    exact (proj1 (base_obs_rec m (ARand sd t) eq_refl) _ _ HR _ (HRw_refl _)).
   - simpl in Hrec. apply negb_true_iff in Hrec.
     destruct (base_obs_rec m a' Hrec) as [Ho Hm].
     assert (forall d, keyfed d d) as Hk by (intro; repeat split).
@@ -147,19 +147,20 @@ Proof.
   intros m a rw evs n Hc g r Hok. unfold recovered.
   assert (forall d, samefed d d) as Hs by (intro; reflexivity).
   assert (forall d, keyfed d d) as Hk by (intro; repeat split).
-  destruct a as [| t | a' hm au md ma | i sz u t]; try discriminate.
+  destruct a as [| sd t | a' hm au md ma | i sz u t]; try discriminate.
   - destruct (run_reach (denote m ASweep) rw samefed Hs evs Hok) as (HR & _).
     apply (bisim_continue _ _ (sweeping_bisim m)).
     exact (sweeping_cont_rec m _ _ HR _ (HRlen_refl _)).
-  - destruct (run_reach (denote m (ARand t)) rw samefed Hs evs Hok) as (HR & _).
-    apply (bisim_continue _ _ (random_bisim _)).
+  - destruct sd; try discriminate.
+    destruct (run_reach (denote m (ARand true t)) rw samefed Hs evs Hok) as (HR & _).
+    apply (bisim_continue _ _ (random_bisim true _)).
     exact (random_cont_rec _ _ _ HR _ (HRlen_refl _)).
   - destruct (run_reach (denote m (ADedup a' hm au md ma)) rw keyfed Hk evs Hok) as (HR & _).
-    destruct a' as [| t | |]; try discriminate.
+    destruct a' as [| [] t | |]; try discriminate.
     + apply (bisim_continue _ _ (dedup_bisim (Sweeping m) m hm au md ma sw_beq (sweeping_bisim m))).
       exact (dedup_cont_rec (Sweeping m) m hm au md ma sw_beq eq_refl (sweeping_cont_rec m) _ _ HR _ (HRk_refl _)).
     + set (dr := fun k : nat => nth k t (-1)%Z).
-      apply (bisim_continue _ _ (dedup_bisim (RandomSeeded dr) m hm au md ma rd_beq (random_bisim dr))).
+      apply (bisim_continue _ _ (dedup_bisim (RandomSeeded dr) m hm au md ma rd_beq (random_bisim true dr))).
       exact (dedup_cont_rec (RandomSeeded dr) m hm au md ma rd_beq eq_refl (random_cont_rec dr) _ _ HR _ (HRk_refl _)).
 Qed.
 
@@ -215,7 +216,7 @@ Proof. intros. apply dedup_obs_rec; assumption. Qed.
 
 (* ---------------------------------------------------------------------------------------------- *)
 (* Examples: the hypotheses are satisfiable by non-trivial inputs *)
-Definition ex_evo : alg := AEvo (ARand [0; 1; 2; 1; 0; 2]%Z) (Some 2) (ULast 2) [[1]; [2]; [0]; [1]]%Z.
+Definition ex_evo : alg := AEvo (ARand true [0; 1; 2; 1; 0; 2]%Z) (Some 2) (ULast 2) [[1]; [2]; [0]; [1]]%Z.
 Definition ex_alg : alg := ADedup ex_evo 2 1 1 5.
 Definition ex_events : list Z := [0; 1; 0; 0; 1; 0; 1; 0; 2; 0; 1]%Z.
 Definition ex_rw : Z -> Z := fun v => (v * 2 + 1)%Z.
@@ -231,7 +232,7 @@ Example ex_nontrivial :
   end.
 Proof. vm_compute. split; [reflexivity | discriminate]. Qed.
 
-Definition ex_det : alg := ADedup (ARand [0; 1; 1; 0; 2; 2; 1; 0; 2; 2; 1]%Z) 0 0 2 4.
+Definition ex_det : alg := ADedup (ARand true [0; 1; 1; 0; 2; 2; 1; 0; 2; 2; 1]%Z) 0 0 2 4.
 Example ex_continuable : continuable ex_det = true /\ r_ok _ (run_events (denote 3 ex_det) ex_rw [0; 0; 1; 0; 0; 0]%Z) = true
   /\ continue_from (denote 3 ex_det) 3 (r_st _ (run_events (denote 3 ex_det) ex_rw [0; 0; 1; 0; 0; 0]%Z)) = [2; -1]%Z.
 Proof. vm_compute. auto. Qed.
@@ -258,14 +259,14 @@ Proof. vm_compute. split; [reflexivity | discriminate]. Qed.
 (* ---------------------------------------------------------------------------------------------- *)
 (* the shipped algorithms by name *)
 Definition regularized_evolution (draws : list Z) (population_size : nat) (children : list (list Z)) : alg :=
-  AEvo (ARand draws) (Some population_size) (ULast population_size) children.
+  AEvo (ARand true draws) (Some population_size) (ULast population_size) children.
 Definition hill_climb (draws : list Z) (init_population_size : nat) (children : list (list Z)) : alg :=
-  AEvo (ARand draws) (Some init_population_size) (UTop 1) children.
+  AEvo (ARand true draws) (Some init_population_size) (UTop 1) children.
 Definition neat (draws : list Z) (population_size : nat) (children : list (list Z)) : alg :=
-  AEvo (ARand draws) (Some population_size) UTopGen children.
+  AEvo (ARand true draws) (Some population_size) UTopGen children.
 
 Definition shipped (a : alg) : Prop :=
-  a = ASweep \/ (exists t, a = ARand t) \/
+  a = ASweep \/ (exists sd t, a = ARand sd t) \/
   (exists t n c, a = regularized_evolution t n c) \/ (exists t n c, a = hill_climb t n c) \/ (exists t n c, a = neat t n c).
 
 Theorem shipped_recover : forall m a rw evs, shipped a ->
@@ -277,7 +278,7 @@ Theorem shipped_recover : forall m a rw evs, shipped a ->
 Proof.
   intros m a rw evs H.
   assert (is_dedup a = false) as Hd.
-  { destruct H as [-> | [(t & ->) | [(t & n & c & ->) | [(t & n & c & ->) | (t & n & c & ->)]]]]; reflexivity. }
+  { destruct H as [-> | [(sd & t & ->) | [(t & n & c & ->) | [(t & n & c & ->) | (t & n & c & ->)]]]]; reflexivity. }
   assert (recoverable a = true) as Hr by (destruct a; try reflexivity; simpl in Hd; discriminate).
   split.
   - exact (recover_observable m a rw evs Hr).
@@ -297,11 +298,11 @@ Theorem recover_from_stored_proposals : forall m a rw evs hm, recoverable a = tr
   pview (obs g (recovered g hm)) = pview (obs g (r_st g r)).
 Proof.
   intros m a rw evs hm Hrec g r Hok Hh. unfold recovered.
-  destruct a as [| t | a' hm' au md ma | i sz u t].
+  destruct a as [| sd t | a' hm' au md ma | i sz u t].
   - destruct (run_reach (denote m ASweep) rw anyfed (fun _ => I) evs Hok) as (HR & _).
     exact (proj1 (base_obs_rec m ASweep eq_refl) _ _ HR _ (HRk_HRw _ _ Hh)).
-  - destruct (run_reach (denote m (ARand t)) rw anyfed (fun _ => I) evs Hok) as (HR & _).
-    exact (proj1 (base_obs_rec m (ARand t) eq_refl) _ _ HR _ (HRk_HRw _ _ Hh)).
+  - destruct (run_reach (denote m (ARand sd t)) rw anyfed (fun _ => I) evs Hok) as (HR & _).
+    exact (proj1 (base_obs_rec m (ARand sd t) eq_refl) _ _ HR _ (HRk_HRw _ _ Hh)).
   - simpl in Hrec. apply negb_true_iff in Hrec.
     destruct (base_obs_rec m a' Hrec) as [Ho Hm].
     assert (forall d, keyfed d d) as Hk by (intro; repeat split).
